@@ -17,6 +17,7 @@ their composition (mutual inverses across every serializer pair) follows.
 
 import random
 
+from vf import c18_codec as C
 from vf import c18_lib as L
 from vf.runner import h
 
@@ -40,6 +41,11 @@ RULE = ("a scenario = one callee/caller pair (transport and serializer chosen pe
         "registered class, define()d subclass of a define()d class, decorated subclass of a decorated class) registered at both sides / callee only / caller only / "
         "different classes per side, or only BETWEEN two calls (raise -> define -> raise, define -> raise -> re-define -> raise, ERROR -> define -> ERROR -> "
         "define another class -> ERROR) under URIs that are prefixes, extensions and truncations of each other + 6-10 calls "
+        "(every 4th pair scenario and every 4th chained scenario with PAYLOAD TRANSPARENCY: a payload codec set on both sessions "
+        "/ all three sessions / the caller only - a harness codec (json, msgpack or cbor inside, with or without key id) or the "
+        "library's cryptobox key ring, with a default key or keys for string prefixes of the URIs in play only, so that encoded "
+        "and plain ERRORs mix; the stub forwards the opaque payload with its enc_* attributes and reads it with the scenario's keys; "
+        "foreign callees seal their ERRORs with the same keys) "
         "whose endpoint raises synchronously, from an inlineCallbacks/async-def body, or rejects a pending future later in "
         "shuffled order: instances of the generated classes, ApplicationError with arbitrary (loose) URIs incl. neighbours "
         "of registered URIs, library TypeCheckError, builtin exceptions, plus ERRORs of a foreign (non-Python) callee made "
@@ -58,6 +64,7 @@ ASSUMPTIONS = [
     "every session starts with the library's own registrations wamp.error.invalid_payload -> SerializationError and wamp.error.payload_size_exceeded -> PayloadExceededError (taken from the documentation of those classes, restated in the oracle)",
     "'the constructor accepts the payload' is decided by the oracle calling cls(*args, **kwargs) itself with the forwarded payload; constructors are deterministic",
     "the stub's plain codecs (json, msgpack, cbor2, bjdata) are trusted to show what was on the wire",
+    "payload transparency: both ends hold the same keys and the router forwards payload + enc_algo/enc_serializer/enc_key unchanged; the statement's 'same args/kwargs' is judged on what a peer holding the keys reads from the payload (vf/c18_codec.py: own implementation of the harness format, NaCl + plain json for the key ring; PyNaCl is trusted); whether a payload is encoded at all is the codec's decision (keys per URI prefix) and is only counted; the is_originating flag handed to the codec and sessions with different keys / a codec at the callee only are not judged",
 ]
 DECIDING = {
     "wire_errors_compared": 200,
@@ -82,6 +89,22 @@ DECIDING = {
     "caller_neighbour_uri_not_matched": 10,
     "serializer_pairs": 16,
     "transport_pairs": 4,
+    # payload transparency (a codec set on the sessions): the same two mappings with the payload travelling encoded
+    "codec_scenarios": 100,
+    "codec_configurations": 8,
+    "codec_formats_on_wire": 5,
+    "wire_errors_encoded_compared": 200,
+    "wire_errors_plain_with_codec_active": 20,
+    "wire_encoded_kwargs_compared_nonempty": 20,
+    "wire_encoded_traceback_seen": 10,
+    "caller_encoded_registered_class_constructed": 20,
+    "caller_encoded_fallback_after_ctor_failure": 20,
+    "caller_encoded_generic_no_class": 20,
+    "caller_encoded_args_compared_nonempty": 50,
+    "caller_encoded_kwargs_compared_nonempty": 50,
+    "caller_encoded_foreign_errors": 20,
+    "caller_plain_error_with_codec_active": 20,
+    "chain_encoded_on_both_hops_compared": 20,
     "ctor_kinds_raised": len(L.CTOR_KINDS),
     "ctor_kinds_expected_at_caller": len(L.CTOR_KINDS),
 }
@@ -383,6 +406,33 @@ def gen_scenario(rng, cfg):
             "payload_kinds": sorted(gen.kinds)}
 
 
+def uris_in_play(spec):
+    out = {RUNTIME_ERROR}
+    for c in spec["classes"]:
+        out.update(u for u in (c.get("deco"), c.get("fixed_uri")) if u)
+    for d in spec["defines"] + spec.get("late_defines", []):
+        if d[2]:
+            out.add(d[2])
+    for c in spec["calls"]:
+        if c["src"].get("uri"):
+            out.add(c["src"]["uri"])
+    return sorted(out)
+
+
+def add_codec(spec, crng, k, chain=False):
+    """Payload transparency on top of a generated scenario (own RNG: the scenarios themselves stay as they are):
+    harness codec or the library's key ring, at both sides or at the caller only, keys for every URI or only for some
+    string prefixes of the URIs in play (the rest travels plain)."""
+    kind = "cryptobox" if k % 3 == 2 else "x"
+    sides = "all" if chain else ("caller" if crng.random() < 0.15 else "both")
+    spec["cfg"]["codec"] = C.make_spec(crng, kind, sides, uris_in_play(spec))
+    # foreign (non-Python) callees hold the same keys: which of their ERRORs come sealed
+    for c in spec["calls"]:
+        if c["src"]["what"] == "foreign":
+            c["src"]["sealed"] = crng.random() < 0.7
+    return spec
+
+
 def make_chain_cfg(rng, k):
     return {"ser_front": SERS[k % 4], "ser_mid": SERS[(k // 4) % 4], "ser_backend": SERS[(k // 16 + k) % 4],
             "transport_front": TRANSPORTS[k % 2], "transport_mid": TRANSPORTS[(k // 2) % 2], "transport_backend": TRANSPORTS[(k // 8 + k // 4) % 2],
@@ -547,6 +597,8 @@ def run_scenario(spec, R, fw, tag=""):
     regs = {"callee": RegModel(), "caller": RegModel()}
     sessions = {"callee": pair.b, "caller": pair.a}
     replay = {"scenario": spec, "fw": fw}
+    codec = cfg.get("codec")
+    encoded = set()                 # calls whose ERROR reached the caller in payload-transparency form
 
     def viol(key, what, **detail):
         detail["cfg"] = cfg
@@ -621,22 +673,48 @@ def run_scenario(spec, R, fw, tag=""):
                     R.count("wire_uri_runtime_error")
                 else:
                     R.count("wire_uri_registered")
-            wargs, wkwargs = split_tail(m, 5)
+            enc = ""
+            if codec and C.is_encoded(m, 5):
+                # payload transparency: the monitor reads the payload as a peer holding the same keys does
+                enc = "/encoded-payload"
+                judged_wire.add(i)
+                try:
+                    inner, wargs, wkwargs = C.open_payload(codec, m[3], uri, m[5])
+                except ValueError as e:
+                    viol("C18/callee/codec/unreadable/%s" % e, "the ERROR's encoded payload cannot be read with the keys both sides hold (%s): "
+                         "the error's arguments are lost" % e, call=calls[i], wire=L.brief(m))
+                    return False, cat, None
+                wargs = [] if wargs is None else wargs
+                wkwargs = {} if wkwargs is None else wkwargs
+                R.count("wire_errors_encoded_compared")
+                R.seen("codec_formats_on_wire", "%s/%s/%s" % (codec["kind"], codec["enc_ser"], "keyid" if codec["keyid"] else "-"))
+                if inner != uri:
+                    viol("C18/callee/codec/inner-uri-differs", "the URI inside the encoded payload (%r) is not the ERROR's URI (%r): the "
+                         "caller's codec check refuses such an error" % (inner, uri), call=calls[i], wire=L.brief(m))
+                    ok = False
+            else:
+                wargs, wkwargs = split_tail(m, 5)
+                if codec and codec["sides"] == "both":
+                    R.count("wire_errors_plain_with_codec_active")
             eargs, ekwargs = exp_payload[i]
             d = payload_diff(wargs, eargs) if isinstance(wargs, list) else "not-a-list"
             if d:
-                viol("C18/callee/args/%s" % d, "ERROR args differ from the exception's: wire %s, exception %s" % (L.brief(wargs), L.brief(eargs)),
+                viol("C18/callee/args/%s%s" % (d, enc), "ERROR args differ from the exception's: wire %s, exception %s" % (L.brief(wargs), L.brief(eargs)),
                      call=calls[i], wire=L.brief(m))
                 ok = False
             d, has_tb = kwargs_diff(wkwargs, ekwargs, cfg["traceback_app"])
             if d:
-                viol("C18/callee/kwargs/%s" % d, "ERROR kwargs differ from the exception's: wire %s, exception %s (traceback_app=%s)" % (
+                viol("C18/callee/kwargs/%s%s" % (d, enc), "ERROR kwargs differ from the exception's: wire %s, exception %s (traceback_app=%s)" % (
                     L.brief(wkwargs), L.brief(ekwargs), cfg["traceback_app"]), call=calls[i], wire=L.brief(m))
                 ok = False
             if has_tb:
                 R.count("wire_traceback_seen")
+                if enc:
+                    R.count("wire_encoded_traceback_seen")
             if ekwargs:
                 R.count("wire_kwargs_compared_nonempty")
+                if enc:
+                    R.count("wire_encoded_kwargs_compared_nonempty")
             if not isinstance(m[3], dict):
                 viol("C18/callee/reply/details-not-a-dict", "ERROR details %r" % (m[3],), wire=L.brief(m))
             if src["what"] == "class":
@@ -647,7 +725,7 @@ def run_scenario(spec, R, fw, tag=""):
                         R.count("wire_uri_after_redefinition")
                 raised_classes.add(src["cls"])
             judged_wire.add(i)
-            return ok, cat
+            return ok, cat, (wargs, wkwargs, bool(enc))
 
         def expect_at_caller(uri, wargs, wkwargs):
             """-> (expectation, class or None, reference instance or None, facets)"""
@@ -688,7 +766,8 @@ def run_scenario(spec, R, fw, tag=""):
             if expectation == "generic-no-class" and any(uri != r and (uri.startswith(r) or r.startswith(uri) or uri.lower() == r.lower()
                                                                            or uri.endswith(r)) for r in reg_uris):
                 R.count("caller_neighbour_uri_not_matched")
-            facet = "+".join(facets) or "-"
+            enc = "/encoded-payload" if i in encoded else ""
+            facet = ("+".join(facets) or "-") + enc
             if not o.results:
                 down = pair.side_down(pair.A, pair.a)
                 viol("C18/caller/lost/expect-%s/%s" % (expectation, facet),
@@ -721,19 +800,29 @@ def run_scenario(spec, R, fw, tag=""):
             else:
                 R.count("caller_fallback_after_ctor_failure" if expectation == "generic-ctor-failed" else "caller_generic_no_class")
                 want = (uri, wargs, wkwargs)
+            if enc:
+                R.count({"registered": "caller_encoded_registered_class_constructed", "generic-ctor-failed": "caller_encoded_fallback_after_ctor_failure",
+                         "generic-no-class": "caller_encoded_generic_no_class"}[expectation])
+                if want[1]:
+                    R.count("caller_encoded_args_compared_nonempty")
+                if want[2]:
+                    R.count("caller_encoded_kwargs_compared_nonempty")
+            elif codec:
+                R.count("caller_plain_error_with_codec_active")
             got = (getattr(err, "error", None), list(err.args), getattr(err, "kwargs", None))
             if isinstance(err, ApplicationError) and got[0] != want[0]:
-                viol("C18/caller/uri/expect-%s" % expectation, "failure carries URI %r, expected %r" % (got[0], want[0]), call=calls[i])
+                viol("C18/caller/uri/expect-%s%s" % (expectation, enc), "failure carries URI %r, expected %r" % (got[0], want[0]), call=calls[i],
+                     got=L.brief([got[0], got[1], got[2]]))
                 ok = False
             d = payload_diff(got[1], want[1])
             if d:
-                viol("C18/caller/args/expect-%s/%s" % (expectation, d), "failure args %s, expected %s" % (L.brief(got[1]), L.brief(want[1])),
+                viol("C18/caller/args/expect-%s/%s%s" % (expectation, d, enc), "failure args %s, expected %s" % (L.brief(got[1]), L.brief(want[1])),
                      call=calls[i], forwarded=L.brief([uri, wargs, wkwargs]))
                 ok = False
             if isinstance(want[2], dict) or isinstance(got[2], dict):
                 d, _ = kwargs_diff(got[2] if got[2] is not None else {}, want[2] if want[2] is not None else {}, False)
                 if d:
-                    viol("C18/caller/kwargs/expect-%s/%s" % (expectation, d), "failure kwargs %s, expected %s" % (L.brief(got[2]), L.brief(want[2])),
+                    viol("C18/caller/kwargs/expect-%s/%s%s" % (expectation, d, enc), "failure kwargs %s, expected %s" % (L.brief(got[2]), L.brief(want[2])),
                          call=calls[i], forwarded=L.brief([uri, wargs, wkwargs]))
                     ok = False
             judged_caller.add(i)
@@ -747,7 +836,8 @@ def run_scenario(spec, R, fw, tag=""):
             R.seen("nontrivial", [fw, cfg["transport_callee"], cfg["transport_caller"], cfg["ser_callee"], cfg["ser_caller"],
                                   cfg["traceback_app"], c["mode"], cat,
                                   class_specs[c["src"]["cls"]]["kind"] if c["src"]["what"] == "class" else c["src"].get("name"),
-                                  kind, bool(wargs), sorted(wkwargs)[:3] if len(wkwargs) < 3 else len(wkwargs)])
+                                  kind, bool(wargs), sorted(wkwargs)[:3] if len(wkwargs) < 3 else len(wkwargs)] + (
+                [codec["kind"], codec["enc_ser"], codec["sides"], i in encoded] if codec else []))
 
         def handle_errors(errs):
             nonlocal dead
@@ -755,11 +845,17 @@ def run_scenario(spec, R, fw, tag=""):
                 if i in forwarded:
                     viol("C18/callee/reply/multiple", "a second ERROR for the same invocation", wire=L.brief(m))
                     continue
-                ok_w, cat = judge_wire(i, m)
-                wargs, wkwargs = split_tail(m, 5)
+                ok_w, cat, seen = judge_wire(i, m)
+                if seen is None:
+                    continue
+                wargs, wkwargs, enc = seen
                 if not isinstance(wargs, list) or not isinstance(wkwargs, dict):
                     continue
                 details = {"callee": 7002, "callee_authid": "anon", "callee_authrole": "anonymous"} if cfg.get("disclose") else {}
+                if enc:
+                    # the router passes the opaque payload on together with its payload-transparency attributes
+                    details.update({k: v for k, v in m[3].items() if k in ("enc_algo", "enc_serializer", "enc_key")})
+                    encoded.add(i)
                 forwarded[i] = (m[4], wargs, wkwargs)
                 pair.forward_error(i, m[4], m[5:], details)
                 judge_caller(i)
@@ -788,7 +884,14 @@ def run_scenario(spec, R, fw, tag=""):
                     uri, a, k = c["src"]["uri"], L.dec(c["src"]["args"]), L.dec(c["src"]["kwargs"])
                     forwarded[i] = (uri, L.norm(a), L.norm(k))
                     tail = [L.norm(a), L.norm(k)] if k else ([L.norm(a)] if a else [])
-                    pair.forward_error(i, uri, tail, {})
+                    sealed = pair.seal_foreign(uri, L.norm(a) if (a or k) else None, L.norm(k) if k else None) if (
+                        codec and c["src"].get("sealed")) else None
+                    if sealed:
+                        encoded.add(i)
+                        R.count("caller_encoded_foreign_errors")
+                        pair.forward_error(i, uri, sealed[1], sealed[0])
+                    else:
+                        pair.forward_error(i, uri, tail, {})
                     judge_caller(i)
                     nontrivial(i, "foreign")
                     R.count("foreign_errors")
@@ -813,6 +916,10 @@ def run_scenario(spec, R, fw, tag=""):
                 viol("C18/callee/reply/not-error", "the callee sent %s instead of an ERROR for the invocation" % L.brief(m)[:200])
         for e in pair.escaped():
             viol("C18/escaped-to-framework", "an exception escaped to the framework: %s" % e)
+        if codec:
+            R.count("codec_scenarios")
+            R.seen("codec_configurations", "%s/%s/%s/%s" % (codec["kind"], codec["sides"], "default-key" if "" in codec["keys"] else "no-default-key",
+                                                            "prefix-keys" if len(codec["keys"]) > ("" in codec["keys"]) else "-"))
         R.seen("serializer_pairs", cfg["ser_callee"] + ">" + cfg["ser_caller"])
         R.seen("transport_pairs", cfg["transport_callee"] + ">" + cfg["transport_caller"])
         R.count("user_error_hook_calls", len(pair.a.user_errors) + len(pair.b.user_errors))
@@ -841,6 +948,8 @@ def run_chain(spec, R, fw):
     replay = {"scenario": spec, "fw": fw}
     combo = "backend-%s+mid-%s" % ("on" if cfg["tb_backend"] else "off", "on" if cfg["tb_mid"] else "off")
     facet = "traceback-already-in-kwargs" if cfg["tb_backend"] and cfg["tb_mid"] else "-"
+    codec = cfg.get("codec")
+    enc_hops = {}                  # call idx -> number of hops on which the ERROR travelled in payload-transparency form
 
     def viol(key, what, **detail):
         detail["cfg"] = cfg
@@ -863,15 +972,31 @@ def run_chain(spec, R, fw):
         hop1, hop2, done = {}, {}, set()
 
         def check_payload(where, i, m, allow_tb):
-            """URI/args/kwargs of ERROR m against the ORIGINAL exception of call i; -> has traceback"""
-            wargs, wkwargs = split_tail(m, 5)
+            """URI/args/kwargs of ERROR m against the ORIGINAL exception of call i; -> has traceback (None: unreadable)"""
+            encs = ""
+            if codec and C.is_encoded(m, 5):
+                try:
+                    inner, wargs, wkwargs = C.open_payload(codec, m[3], m[4], m[5])
+                except ValueError as e:
+                    viol("C18/chain/%s/codec/unreadable/%s" % (where, e), "the ERROR's encoded payload cannot be read with the keys all sessions "
+                         "hold (%s)" % e, call=calls[i], wire=L.brief(m))
+                    return None
+                wargs = [] if wargs is None else wargs
+                wkwargs = {} if wkwargs is None else wkwargs
+                enc_hops[i] = enc_hops.get(i, 0) + 1
+                encs = "/encoded-payload"
+                if inner != m[4]:
+                    viol("C18/chain/%s/codec/inner-uri-differs" % where, "URI inside the encoded payload %r, ERROR URI %r" % (inner, m[4]),
+                         call=calls[i], wire=L.brief(m))
+            else:
+                wargs, wkwargs = split_tail(m, 5)
             d = payload_diff(wargs, exp[i][0]) if isinstance(wargs, list) else "not-a-list"
             if d:
-                viol("C18/chain/%s/args/%s" % (where, d), "args %s differ from the original exception's %s" % (L.brief(wargs), L.brief(exp[i][0])),
+                viol("C18/chain/%s/args/%s%s" % (where, d, encs), "args %s differ from the original exception's %s" % (L.brief(wargs), L.brief(exp[i][0])),
                      call=calls[i], wire=L.brief(m))
             d, has_tb = kwargs_diff(wkwargs, exp[i][1], allow_tb)
             if d:
-                viol("C18/chain/%s/kwargs/%s" % (where, d), "kwargs %s differ from the original exception's %s (traceback: %s)" % (
+                viol("C18/chain/%s/kwargs/%s%s" % (where, d, encs), "kwargs %s differ from the original exception's %s (traceback: %s)" % (
                     L.brief(wkwargs), L.brief(exp[i][1]), combo), call=calls[i], wire=L.brief(m))
             return has_tb
 
@@ -887,7 +1012,9 @@ def run_chain(spec, R, fw):
                         uris, cat = expected_wire_uris(calls[i]["src"], excs[i], reg, class_specs)
                         if m[4] not in uris:
                             viol("C18/chain/backend/uri/%s" % cat, "backend ERROR URI %r, admissible %s" % (m[4], sorted(uris)), call=calls[i], wire=L.brief(m))
-                        check_payload("backend", i, m, cfg["tb_backend"])
+                        if check_payload("backend", i, m, cfg["tb_backend"]) is None:
+                            done.add(i)
+                            continue
                         nxt += ch.forward_to_mid(i, m)
                     else:
                         if i in hop2:
@@ -902,33 +1029,39 @@ def run_chain(spec, R, fw):
                         if m[4] != hop1[i][4]:
                             viol("C18/chain/mid/uri", "MID re-raised the error it got (%r) but sent URI %r" % (hop1[i][4], m[4]), call=calls[i], wire=L.brief(m))
                         has_tb = check_payload("mid", i, m, cfg["tb_backend"] or cfg["tb_mid"])
+                        if has_tb is None:
+                            done.add(i)
+                            continue
                         if has_tb and cfg["tb_backend"] and cfg["tb_mid"]:
                             R.count("chain_traceback_added_on_both_hops")
                         ch.forward_to_front(i, m)
                         o = ch.outcomes[i]
+                        encs = "/encoded-payload" if enc_hops.get(i) else ""
                         if len(o.results) != 1 or o.results[0][0] != "err":
-                            viol("C18/chain/front/%s/%s" % ("lost" if not o.results else "bad-completion", facet),
+                            viol("C18/chain/front/%s/%s%s" % ("lost" if not o.results else "bad-completion", facet, encs),
                                  "front call completions after ERROR %r: %s" % (m[4], L.brief(o.results)), call=calls[i])
                             continue
                         err = o.results[0][1]
-                        wargs, wkwargs = split_tail(m, 5)
                         if type(err) is not ApplicationError or err.error != hop1[i][4]:
-                            viol("C18/chain/front/class-or-uri", "front got %s with URI %r, expected ApplicationError %r" % (
+                            viol("C18/chain/front/class-or-uri" + encs, "front got %s with URI %r, expected ApplicationError %r" % (
                                 type(err).__name__, getattr(err, "error", None), hop1[i][4]), call=calls[i])
                             continue
                         got_kw = dict(err.kwargs)
                         got_kw.pop("traceback", None)
                         if payload_diff(list(err.args), exp[i][0]) or kwargs_diff(got_kw, exp[i][1], False)[0] or (
                                 "traceback" in err.kwargs and not (cfg["tb_backend"] or cfg["tb_mid"])):
-                            viol("C18/chain/front/payload", "front failure args %s kwargs %s, original %s %s (traceback: %s)" % (
+                            viol("C18/chain/front/payload" + encs, "front failure args %s kwargs %s, original %s %s (traceback: %s)" % (
                                 L.brief(list(err.args)), L.brief(err.kwargs), L.brief(exp[i][0]), L.brief(exp[i][1]), combo), call=calls[i])
                             continue
                         done.add(i)
                         R.count("chain_end_to_end_compared")
+                        if enc_hops.get(i) == 2:
+                            R.count("chain_encoded_on_both_hops_compared")
                         R.seen("chain_traceback_combinations", combo)
                         R.seen("nontrivial", ["chain", fw, cfg["ser_front"], cfg["ser_mid"], cfg["ser_backend"], cfg["transport_front"],
                                               cfg["transport_mid"], cfg["transport_backend"], combo, calls[i]["mode"], calls[i]["style"],
-                                              calls[i]["src"]["what"], bool(exp[i][0]), len(exp[i][1])])
+                                              calls[i]["src"]["what"], bool(exp[i][0]), len(exp[i][1])] + (
+                            [codec["kind"], codec["enc_ser"], enc_hops.get(i, 0)] if codec else []))
                 events = nxt
 
         issued = []
@@ -969,13 +1102,18 @@ def run_shard(params, R):
     fw = params["fw"]
     for k in range(params["scenarios"]):
         rng = random.Random("c18-%d-%s-%d-%d" % (params["seed"], fw, params["part"], k))
+        crng = random.Random("c18codec-%d-%s-%d-%d" % (params["seed"], fw, params["part"], k))
         if k % 4 == 3:
             spec = gen_chain(rng, make_chain_cfg(rng, k // 4 + 5 * params["part"]))
+            if k % 16 == 7:
+                add_codec(spec, crng, k // 16 + params["part"], chain=True)
             run_chain(spec, R, fw)
             R.count("chain_scenarios")
         else:
             cfg = make_cfg(rng, (k - k // 4) + 3 * params["part"])
             spec = gen_scenario(rng, cfg)
+            if k % 4 == 1:
+                add_codec(spec, crng, k // 4 + params["part"])
             run_scenario(spec, R, fw)
         R.count("scenarios")
 
@@ -996,7 +1134,8 @@ MANIFEST_ENTRY = {
              "synchronously, asynchronously and from coroutine bodies with generated args/kwargs, with and without traceback "
              "forwarding; a foreign callee's ERRORs are injected too. Every ERROR on the wire is compared with a snapshot of "
              "the exception (URI in the admissible set, args, kwargs, at most an extra `traceback`), every failure of the "
-             "caller's call with an oracle-side construction of the class the harness' registry model holds for the URI, "
+             "caller's call (payload transparency: read with the scenario's keys, harness codec or the library's key ring, encoded "
+             "and plain errors mixed) with an oracle-side construction of the class the harness' registry model holds for the URI, "
              "generic ApplicationError otherwise; lost errors, dead sessions and escaped exceptions are violations. Held = no "
              "mismatch on the executions in the evidence; not a proof."),
     "note": "trusts the stub's plain codecs and the harness' fake transports; reserved kwarg names, contract-violating define() calls and non-serializable payloads are outside the workload; grey zones listed in the assumptions are accepted both ways",
